@@ -9,6 +9,7 @@ open Petl.Gen
 
 def expectedC03 : List (String × String) := [
   ("file:comparison.py", "c46d05a1308c92ce"),
+  ("file:compat.py", "2a259e16acd200bc"),
   ("file:config.py", "142bde514c82c29d"),
   ("file:transform/basics.py", "ef1ded632cafe787"),
   ("file:transform/conversions.py", "c717da0d8eb0ba94"),
@@ -19,15 +20,15 @@ def expectedC03 : List (String × String) := [
   ("file:transform/joins.py", "bb9e0069e4d5e3a6"),
   ("file:transform/maps.py", "e13eb9e40cc9aa94"),
   ("file:transform/reductions.py", "edf72039afd74a8e"),
-  ("file:transform/regex.py", "6f7519d83abfcff1"),
-  ("file:transform/reshape.py", "e9dad8513b846f8e"),
+  ("file:transform/regex.py", "7acd499a0489265c"),
+  ("file:transform/reshape.py", "b1f08e12c952f763"),
   ("file:transform/selects.py", "f935e8905e1e021c"),
   ("file:transform/setops.py", "6dff26ed32585dcd"),
   ("file:transform/sorts.py", "137f7e8a70e043fe"),
   ("file:transform/unpacks.py", "dc09fa3e6a63a9d8"),
   ("file:transform/validation.py", "d6c489f84a1f0cd7"),
   ("file:util/base.py", "771a68108eeb730d"),
-  ("file:util/counting.py", "fe901a5b473a2d17"),
+  ("file:util/counting.py", "d1842a2eb811b294"),
   ("file:util/lookups.py", "18ad3f3b3f749ffe"),
   ("file:util/materialise.py", "66208e10041a09c8"),
   ("file:util/random.py", "5ef62df76549c098"),
